@@ -1047,3 +1047,20 @@ def r4_10(rep):
     rep.check(ok, "linkage-filter@Var::parse", "variables without a linkable symbol are dropped" if ok else
               "Var::parse never rejects a declaration because of its linkage: a `static` variable without a constant value becomes an `extern` static "
               "that no object file defines", vp.loc(vp.root))
+
+
+@RULES.rule("R4.11", "thread-local variables are not declared as ordinary statics", floor=1)
+def r4_11(rep):
+    """`extern __thread int tls;` (or `_Thread_local` / `thread_local`) lives in the thread's TLS block and is reached through the
+    thread pointer; Rust's `extern { static mut tls: c_int; }` reads an ordinary data symbol.  Stable Rust cannot name a foreign
+    thread-local, so such a variable must get no binding; `Var::parse` has to look at the cursor's TLS kind."""
+    prog = rep.prog
+    vp = rep.need(prog.impl_fn("parse::ClangSubItemParser", "ir::var::Var", "parse"), "<Var as ClangSubItemParser>::parse")
+    reach = prog.reachable([vp.path])
+    uses = [p for p in reach if prog.fn(p) is not None and any(c["k"] == "Call" and "clang_getCursorTLSKind" in str(c.get("callee") or "")
+                                                             for c in prog.fn(p).nodes)]
+    direct = any(c["k"] in ("Call", "MCall") and ("TLSKind" in str(c.get("callee") or c.get("resolved") or "") or c.get("name") in ("tls_kind", "is_thread_local"))
+                 for c in vp.nodes)
+    ok = bool(uses) or direct
+    rep.check(ok, "thread-local-rejected@Var::parse", "Var::parse consults the TLS kind of the declaration" if ok else
+              "nothing on the way from Var::parse asks libclang whether the variable is thread-local: it is bound like an ordinary global", vp.loc(vp.root))
